@@ -271,7 +271,43 @@ def liveCheck (s : St) : List String :=
   bad "L9" (s.workers.all (fun w => (w.held.isSome == (w.pc == .lockAcq || w.pc == .putNowait || w.pc == .putBlock ||
             (w.pc == .lockRel && w.full))))) ++
   -- feeder events
-  bad "L10" (!(s.fpc == .runWait || s.fpc == .stopIsSet) || !s.fStop)
+  bad "L10" (!(s.fpc == .runWait || s.fpc == .stopIsSet) || !s.fStop) ++
+  -- clauses added for the proof (`LiveInv` in Proofs/PoolLiveAux1.lean)
+  (let pend := (match s.rpc with | .join wid => [wid] | _ => []) ++ s.replQ.filterMap id
+   let liveCnt := s.workers.countP (fun w => w.pc != .exited)
+   let stopsSent := match s.cpc with | .exitPut i => i | .exitJoin _ | .done => s.procs.length | _ => 0
+   let rCall := match s.cpc with
+     | .fInitSet | .wrSending | .wrDataCnt | .fStart | .fStopSet | .fJoin | .rPutNone => true
+     | _ => inLoop s
+   let setup := match s.cpc with
+     | .rInitSet | .rStart | .fInitSet | .wrSending | .wrDataCnt | .fStart => true
+     | _ => false
+   bad "M_lockH" (match s.lock with
+     | none => true
+     | some .c => cIn
+     | some (.w wid) => s.workers.any (fun w => w.wid == wid && (w.pc == .putNowait || w.pc == .lockRel))
+     | _ => false) ++
+   bad "M_lockC" (!cIn || s.lock == some .c) ++
+   bad "M_procsEx" (s.procs.all (fun wid => (getWorker s wid).isSome)) ++
+   bad "M_procsLen" (s.procs.length == s.cfg.nWorkers) ++
+   bad "M_idx" (match s.cpc with
+     | .enterStart i | .readyWait i | .exitPut i | .exitJoin i => decide (i < s.procs.length)
+     | _ => true) ++
+   bad "M_rStartIn" (match s.rpc with | .start nw => s.procs.contains nw | _ => true) ++
+   bad "M_bfPc" (s.workers.all (fun w => w.bf || w.pc == .notStarted || w.pc == .bfClear || w.pc == .bfSet)) ++
+   bad "M_retireF" (s.workers.all (fun w => w.pc != .retire || s.cfg.factory)) ++
+   bad "M_rLive" (!s.cfg.factory || !rCall || s.rAlive) ++
+   bad "M_tokR" (noneCount s.replQ == (if (s.cpc == .rStopSet || s.cpc == .rJoin) && s.rAlive then 1 else 0)) ++
+   bad "M_exitedL" (s.workers.all (fun w => w.pc != .exited || !s.procs.contains w.wid || exitPhase s ||
+     (s.cfg.factory && pend.contains w.wid))) ++
+   bad "M_curSome" (!setup || s.cur.isSome) ++
+   bad "M_curNone" (!exitPhase s || s.cur.isNone) ++
+   bad "M_wokenPc" (!s.woken || cIn) ++
+   bad "M_runSetup" (!(s.cpc == .wrSending || s.cpc == .wrDataCnt || s.cpc == .fStart) || s.fRun) ++
+   bad "M_cnt1" (decide (liveCnt + pend.length ≤ s.procs.length)) ++
+   bad "M_cnt2" (!exitPhase s || decide (liveCnt + stopsSent ≤ noneCount s.workQ + s.procs.length)) ++
+   bad "M_cnt3" (!exitPhase s || decide (noneCount s.workQ ≤ stopsSent)) ++
+   bad "M_cnt4" (s.cfg.factory || decide (noneCount s.workQ + s.procs.length ≤ liveCnt + stopsSent)))
 
 /-- stuck: nobody can move although the caller has not finished -/
 def stuck (s : St) : Bool := s.cpc != .done && (enabledTids s).isEmpty
